@@ -599,6 +599,11 @@ func c19Bitmap(c *engine.Ctx, in []byte, args map[string]string) {
 		case "dirty-large":
 			scratch = bytes.Repeat([]byte{0xAA}, 8)
 			dst = scratch[:0]
+		case "filled":
+			// a buffer with a length: the bits are written from its first bit on, over whatever it holds
+			dst = bytes.Repeat([]byte{0xFF}, 2)
+		case "filled-large":
+			dst = bytes.Repeat([]byte{0x55}, 4)
 		}
 		w := parse.NewBitmapWriter(dst)
 		for _, b := range in {
@@ -620,7 +625,7 @@ func c19Bitmap(c *engine.Ctx, in []byte, args map[string]string) {
 				return
 			}
 		}
-		for i := len(in); i < len(buf)*8; i++ {
+		for i := len(in); i < len(buf)*8 && !strings.HasPrefix(args["dst"], "filled"); i++ {
 			if r.Read() || r.EOF() {
 				c.Fail("bitmap-padding", fmt.Sprintf("bits %s: padding bit %d is set or EOF came early (buffer %08b)", in, i, buf))
 				return
@@ -725,7 +730,7 @@ func c19Work(c *engine.Ctx) {
 		c.Count("exec", 1)
 		c.Count("transitions", int64(len(in)))
 		if len(in) <= 17 {
-			for _, dst := range []string{"dirty", "dirty-large"} {
+			for _, dst := range []string{"dirty", "dirty-large", "filled", "filled-large"} {
 				c.Exec(bm, in, map[string]string{"kind": "write", "dst": dst})
 				c.Count("exec", 1)
 				c.Count("transitions", int64(len(in)))
@@ -766,7 +771,7 @@ func c19Finish(c *engine.Ctx, cov map[string]interface{}) string {
 func init() {
 	register(&engine.Check{
 		ID: "C19", Level: "model_checking",
-		Rule:        "all write histories of ≤3 (thorough 4) typed writes (27 op/value pairs: every width, signed and unsigned boundary values, byte strings of 0,1,3 bytes) plus all histories of 4 (thorough 5) writes over a 12-op core × {big, little} endian: writer bytes vs encoding/binary, then read back on 15 backends/environment behaviours (memory, Bytes() reader, ReadSeeker n/-1/1-byte chunks/EOF-with-data, ReaderAt with nil or EOF on exact fit, plain reader -1/n/chunked/EOF-with-data, *os.File, mmap path, mmap file) with the data truncated at every byte; Seek from every position × every offset in [-L-1,L+1] × whence 0..3 and Read/ReadAt for every (pos,len) on L≤6 bytes vs bytes.Reader and the io contracts (on the sequential-only backends: ReadAt at every (pos, off, len) either refuses or returns the right bytes and leaves the following reads intact); every bit string ≤17 bits through BitmapWriter→BitmapReader (destination nil, or an empty slice whose spare capacity holds old data) and every buffer ≤2 bytes through BitmapReader",
+		Rule:        "all write histories of ≤3 (thorough 4) typed writes (27 op/value pairs: every width, signed and unsigned boundary values, byte strings of 0,1,3 bytes) plus all histories of 4 (thorough 5) writes over a 12-op core × {big, little} endian: writer bytes vs encoding/binary, then read back on 15 backends/environment behaviours (memory, Bytes() reader, ReadSeeker n/-1/1-byte chunks/EOF-with-data, ReaderAt with nil or EOF on exact fit, plain reader -1/n/chunked/EOF-with-data, *os.File, mmap path, mmap file) with the data truncated at every byte; Seek from every position × every offset in [-L-1,L+1] × whence 0..3 and Read/ReadAt for every (pos,len) on L≤6 bytes vs bytes.Reader and the io contracts (on the sequential-only backends: ReadAt at every (pos, off, len) either refuses or returns the right bytes and leaves the following reads intact); every bit string ≤17 bits through BitmapWriter→BitmapReader (destination nil, an empty slice whose spare capacity holds old data, or a buffer that is filled with other bits) and every buffer ≤2 bytes through BitmapReader",
 		Assumptions: []string{"a reader may legally deliver io.EOF together with the last bytes, and a ReaderAt may return io.EOF or nil when a read ends exactly at the end", "Seek targets outside [0,Len] may be rejected (position unchanged) or accepted"},
 		Setup:       c19Setup, Work: c19Work, Finish: c19Finish,
 	})
